@@ -218,6 +218,7 @@ def run(ctx):
     from ipv8.keyvault.crypto import default_eccrypto
     from ipv8.messaging import lazy_payload as lp
     from ipv8.messaging.lazy_payload import VariablePayload
+    from ipv8.messaging.serialization import PackError
     from ipv8.messaging.payload_dataclass import DataClassPayload, type_from_format, type_map
     r = ctx.rng("main")
     ser = wire.make_serializer()
@@ -392,23 +393,32 @@ def run(ctx):
                         ctx.violation("%s/keyword-construction" % label, "keyword construction differs", case)
                     # mixed construction (compiled_init_equals_interpreted_mixed): a positional prefix, the rest by keyword in
                     # reverse order; calls the plain form rejects (a field given twice, an unknown keyword) are rejected too
-                    if label == "compiled" and "bits" not in d.formats and len(d.names) >= 2:
-                        k = r.randrange(1, len(d.names))
-                        rest = list(zip(d.names[k:], args[k:]))[::-1]
-                        if ser.pack_serializable(K(*args[:k], **dict(rest))) != bp:
-                            ctx.violation("compiled/mixed-construction", "positional prefix of %d + keywords differs" % k, case)
-                        for bad in (dict(rest + [(d.names[0], args[0])]), dict(rest + [("no_such_field", 1)]), dict(rest[1:])):
-                            outcome = []
-                            for form in (P, K):
-                                try:
-                                    form(*args[:k], **bad)
-                                    outcome.append("accepted")
-                                except (KeyError, TypeError, IndexError):
-                                    outcome.append("rejected")
-                            if outcome[0] != outcome[1]:
-                                ctx.violation("compiled/mixed-construction-acceptance",
-                                              "a call with keywords %s is %s by the plain form and %s by the compiled form" % (
-                                                  sorted(bad), outcome[0], outcome[1]), case)
+                    if label == "compiled" and len(d.names) >= 2:
+                        # split points anywhere, also strictly inside a group of eight bits names
+                        ks = {r.randrange(1, len(d.names))}
+                        pos = 0
+                        for f in d.formats:
+                            if f == "bits":
+                                ks.add(pos + r.randrange(1, 8))
+                            pos += 8 if f == "bits" else 1
+                        for k in sorted(x for x in ks if 0 < x < len(d.names)):
+                            rest = list(zip(d.names[k:], args[k:]))[::-1]
+                            calls = [("the rest by keyword", dict(rest), True), ("a field given twice", dict(rest + [(d.names[0], args[0])]), False),
+                                     ("an unknown keyword", dict(rest + [("no_such_field", 1)]), False), ("a field missing", dict(rest[1:]), False)]
+                            for what, kwd, legal in calls:
+                                outcome = []
+                                for form in (P, K):
+                                    try:
+                                        outcome.append(ser.pack_serializable(form(*args[:k], **kwd)))
+                                    except (KeyError, TypeError, IndexError, PackError, AttributeError) as e:
+                                        outcome.append("rejected (%s)" % type(e).__name__)
+                                same = outcome[0] == outcome[1] or (isinstance(outcome[0], str) and isinstance(outcome[1], str))
+                                if legal and outcome[0] != bp:
+                                    ctx.violation("plain/mixed-construction", "plain form: %d positional arguments and %s gives %s, all-positional "
+                                                  "construction gives other bytes" % (k, what, outcome[0] if isinstance(outcome[0], str) else "bytes"), case)
+                                if not same:
+                                    ctx.violation("compiled/mixed-construction", "%d positional arguments and %s: plain %s, compiled %s" % (
+                                        k, what, outcome[0] if isinstance(outcome[0], str) else "accepts", outcome[1] if isinstance(outcome[1], str) else "accepts"), case)
                 except Exception as e:   # noqa
                     ctx.violation("%s/raises" % label, "%s form raises %s: %s" % (label, type(e).__name__, str(e)[:100]), case)
     # ---- siblings: the hook-less definition of the same shape compiled AFTER a hooked one still behaves like its plain form
